@@ -103,6 +103,49 @@ def emit(root, o):
     return root.to_boc(has_idx=bool(o['idx']), hash_crc32=bool(o['crc']), has_cache_bits=bool(o['cache']))
 
 
+def emit_with_hashes(root, which):
+    """input construction: a serialized_boc of root's DAG in which cells carry their stored hashes and depths (the "with hashes"
+    descriptor flag): which = 'exotic' (special cells only), 'level' (cells of level > 0) or 'all'.  The stored values are the
+    ones the live cells report; what the parser makes of the bag is judged by TLC like every other route."""
+    order, seen = [], {}
+
+    def visit(c):
+        if id(c) in seen:
+            return
+        seen[id(c)] = None
+        for r in c.refs:
+            visit(r)
+        order.append(c)
+    visit(root)
+    order.reverse()                                  # parents first: references point forward
+    pos = {id(c): k for k, c in enumerate(order)}
+    size = 1 if len(order) < 256 else 2
+    body = bytearray()
+    for c in order:
+        m = c.level_mask.mask
+        ex = c.type_ != -1
+        wh = which == 'all' or (which == 'exotic' and ex) or (which == 'level' and m != 0)
+        raw = c.to_boc()                              # only to take this cell's own descriptor/data bytes from a one-root bag
+        bag, _, starts = scan(raw)
+        own = raw[starts[0]:starts[1]]
+        nbytes = len(own) - 2 - len(c.refs) * (raw[4] & 7)
+        d1 = len(c.refs) + (8 if ex else 0) + (16 if wh else 0) + 32 * m
+        body += bytes([d1, own[1]])
+        if wh:
+            lv = [l for l in range(4) if l == 0 or (m >> (l - 1)) & 1]
+            for l in lv:
+                body += c.get_hash(l)
+            for l in lv:
+                body += c.get_depth(l).to_bytes(2, 'big')
+        body += own[2:2 + nbytes]
+        for r in c.refs:
+            body += pos[id(r)].to_bytes(size, 'big')
+    offb = 2 if len(body) < 65536 else 3
+    hdr = b'\xb5\xee\x9c\x72' + bytes([size, offb]) + len(order).to_bytes(size, 'big') + (1).to_bytes(size, 'big') + (0).to_bytes(size, 'big') \
+        + len(body).to_bytes(offb, 'big') + (0).to_bytes(size, 'big')
+    return hdr + bytes(body)
+
+
 def tree_heap(ncells, databits=32, fan=4):
     """children-first heap of ncells distinct cells forming a fan-ary tree"""
     heap = []
